@@ -186,31 +186,42 @@ def r3(F, R):
     for adt, getters in sorted(own.items()):
         verdict_fields = {getters[g] for g in W.VERDICT_GETTERS}
         retried_field = getters["retried_steps"]
-        root, bodies = W.handler_bodies(F, adt)
-        writes = W.counter_writes(F, adt, bodies)
+        from . import writers_deep as WD
+        # Summarize: decided on the deep path table of its handler (spelling-independent); Libtest buffers and replays
+        # events and formats a lot in the same routines (path explosion): its write sites are classified site-based
+        deep = adt in WD.DEEP_ADTS
+        if deep:
+            writes = WD.table(F, adt).writes
+        else:
+            root, bodies = W.handler_bodies(F, adt)
+            writes = W.counter_writes(F, adt, bodies)
         for w in writes:
             if w.op not in ("+1", "+n"):
                 continue
-            ctx = W.context(F, w.body, w.site, bodies, root)
+            ctx = w.ctx if deep else W.context(F, w.body, w.site, bodies, root)
             scen = ctx.get("event::Scenario")
             if scen is None:
                 continue  # not scenario-level (parser errors, run-level)
             ev = "+".join(sorted(ctx.get("event::Step", []) or ctx.get("event::Hook", []) or scen))
             kind = "Hook" if "event::Hook" in ctx else ("Step" if "event::Step" in ctx else "Scenario")
             inst = f"{short_adt(adt)}/{w.name}/{kind}::{ev}"
-            rg = W.retry_guard(F, w.body, w.site)
+            if deep:
+                rg = w.rg
+            else:
+                rg0 = W.retry_guard(F, w.body, w.site)
+                rg = None if rg0 is None else (rg0[0], W.is_canonical_retry_predicate(rg0[1]))
             if w.path in verdict_fields:
                 if rg is None:
                     R.violation(inst, w.site, f"`{w.name}` feeds the run verdict and is incremented for a {kind}::{ev} event of an "
                                 f"attempt without testing whether a retry is left: a failure that will be retried is counted as final")
                 elif rg[0] != "final":
                     R.violation(inst, w.site, f"`{w.name}` (verdict input) is incremented on the *retry-left* edge of the retry predicate")
-                elif not W.is_canonical_retry_predicate(rg[1]):
-                    R.violation(inst, w.site, f"the predicate guarding `{w.name}` is not `left > 0 && err != NotFound`: table {rg[1]}")
+                elif not rg[1]:
+                    R.violation(inst, w.site, f"the predicate guarding `{w.name}` is not `left > 0 && err != NotFound`")
                 else:
                     R.ok(inst, w.site, "verdict counter incremented only when no retry is left")
             elif w.path == retried_field:
-                if rg is None or rg[0] != "retry" or not W.is_canonical_retry_predicate(rg[1]):
+                if rg is None or rg[0] != "retry" or not rg[1]:
                     R.violation(inst, w.site, f"`{w.name}` (retried steps) is not incremented exactly on the retry-left edge: {rg and rg[0]}")
                 else:
                     R.ok(inst, w.site, "retried counter incremented only when a retry is left")
@@ -222,7 +233,10 @@ def r3(F, R):
             ("std::result::Result", "Err"): {nm("parsing_errors")},
         }
         sub = core_reporter_prefix(R, short_adt(adt))
-        W.check_mandatory(F, sub, adt, writes, mandatory)
+        if deep:
+            WD.check_mandatory(F, sub, adt, mandatory)
+        else:
+            W.check_mandatory(F, sub, adt, writes, mandatory)
     R.floor(3)
 
 
